@@ -147,6 +147,19 @@ func Main(args []string) error {
 		cfgs = append(cfgs, cfgSel{mode, -1, []int64{0, 1000, 1_699_999_000}[i], 10, 0, int64(13 + 4*i), 0})
 		// multi-period + stop: the static MPD must not keep changing at later period boundaries
 		cfgs = append(cfgs, cfgSel{mode, -1, []int64{0, 0, 1_699_999_200}[i], -1, 0, int64(150 + 20*i), 60})
+		// option combinations: stop / multi-period together with an availabilityTimeOffset (shorter and longer than a segment),
+		// and the implicit startNumber (snr_-1 = DASH default 1)
+		cfgs = append(cfgs, cfgSel{mode, -1, []int64{1000, 0, 1_699_999_000}[i], 10, 1 + i, int64(14 + 3*i), 0},
+			cfgSel{mode, -1, 0, -1, 3 - i, 0, 60},
+			cfgSel{mode, tl.SNRImplicit, []int64{0, 1_699_999_000, 1000}[i], []int{-1, 10, 1}[i], i, 0, 0})
+	}
+	if *thorough {
+		for _, mode := range modes {
+			for ak := 1; ak < 4; ak++ {
+				cfgs = append(cfgs, cfgSel{mode, 1, 1000, 10, ak, 21, 0}, cfgSel{mode, -1, 0, 10, ak, 0, 120},
+					cfgSel{mode, tl.SNRImplicit, 0, 10, ak, 0, 60})
+			}
+		}
 	}
 	var jobs []job
 	samples := []any{}
@@ -282,7 +295,18 @@ func Main(args []string) error {
 				}
 			}
 		}
+		if cs.periods > 0 { // both sides of period boundaries, also the availabilityTimeOffset before them
+			pd := int64(3600 / cs.periods * 1000)
+			for _, k := range []int64{1, 2, 60} {
+				for _, d := range []int64{-ato - 1, -ato, -ato + 1, -ato / 2, -1, 0, 1} {
+					inst[k*pd+d] = true
+				}
+			}
+		}
 		if stop > 0 {
+			for _, d := range []int64{-ato - 1, -ato, -ato / 2, -1000, -250} {
+				inst[stop*1000+d] = true
+			}
 			for _, d := range []int64{-1, 0, 1, 2, 999, 5000, 100_000} {
 				inst[stop*1000+d] = true
 			}
@@ -349,6 +373,10 @@ func Main(args []string) error {
 						media = strings.ReplaceAll(st.Media, "$RepresentationID$", rt.ID)
 						if st.StartNumber != nil {
 							sp := project.Pair(int64(*st.StartNumber)-c.EffSNR(), N)
+							e["snp"] = sp[:]
+							e["hasSn"] = true
+						} else if c.SNR == tl.SNRImplicit { // snr_-1: no attribute, which DASH reads as startNumber 1
+							sp := project.Pair(1-c.EffSNR(), N)
 							e["snp"] = sp[:]
 							e["hasSn"] = true
 						}
